@@ -82,6 +82,22 @@ def run_case(c):
                     record(ev)
                     if cb.get("raises"):
                         raise RuntimeError("callback %d" % cb["id"])
+                # an application may register any callable: the shape follows from the id, so
+                # that the case itself (and the model's input) stays as it is
+                shape = cb["id"] % 4
+                if shape == 1:
+                    class Owner:
+                        def on_event(self, ev):
+                            f(ev)
+                    return Owner().on_event
+                if shape == 2:
+                    import functools
+                    return functools.partial(lambda tag, ev: f(ev), "cb")
+                if shape == 3:
+                    class Listener:
+                        def __call__(self, ev):
+                            f(ev)
+                    return Listener()
             return f
 
         if mode == "tcp":
